@@ -23,3 +23,165 @@ def echo_app(env, body=b"ok"):
         return [body]
 
     return app
+
+
+# ---------------------------------------------------------------------------
+# scripted response programs (C03, C08, C09)
+# ---------------------------------------------------------------------------
+import io
+
+
+class AppError(Exception):
+    pass
+
+
+class Rec:
+    """What one application invocation did / had done to it."""
+
+    def __init__(self):
+        self.started = False
+        self.close_calls = 0
+        self.file_close_calls = 0
+        self.produced = b""  # body bytes handed to the server
+        self.raised = None
+        self.finished_iter = False
+        self.write_errors = []
+
+
+class TrackedFile(io.BytesIO):
+    def __init__(self, data, rec):
+        super().__init__(data)
+        self.rec = rec
+
+    def close(self):
+        self.rec.file_close_calls += 1
+        super().close()
+
+
+class NoSeekFile:
+    def __init__(self, data, rec):
+        self._f = io.BytesIO(data)
+        self.rec = rec
+
+    def read(self, n=-1):
+        return self._f.read(n)
+
+    def close(self):
+        self.rec.file_close_calls += 1
+        self._f.close()
+
+
+def make_exc(name):
+    return {
+        "ValueError": ValueError, "OSError": OSError, "ConnectionResetError": ConnectionResetError,
+        "KeyboardInterrupt": KeyboardInterrupt, "SystemExit": SystemExit, "GeneratorExit": GeneratorExit,
+        "AppError": AppError, "BrokenPipeError": BrokenPipeError,
+    }[name]("injected " + name)
+
+
+class BodyIter:
+    """The application's iterable: yields prog chunks, may raise at a step,
+    counts close() calls.  kind 'list' additionally has __len__."""
+
+    def __init__(self, prog, rec, chunks, with_len):
+        self.prog, self.rec, self.chunks = prog, rec, chunks
+        self.i = 0
+        self._with_len = with_len
+
+    def __iter__(self):
+        return self
+
+    def __next__(self):
+        exc = self.prog.get("exc")
+        if exc and exc[0] == "chunk" and exc[1] == self.i:
+            self.rec.raised = exc
+            raise make_exc(self.prog.get("exc_class", "ValueError"))
+        if self.i >= len(self.chunks):
+            self.rec.finished_iter = True
+            raise StopIteration
+        c = self.chunks[self.i]
+        self.i += 1
+        self.rec.produced += c
+        return c
+
+    def close(self):
+        self.rec.close_calls += 1
+        exc = self.prog.get("exc")
+        if exc and exc[0] == "close":
+            self.rec.raised = exc
+            raise make_exc(self.prog.get("exc_class", "ValueError"))
+
+
+class BodyList(BodyIter):
+    def __len__(self):
+        return len(self.chunks)
+
+
+def run_program(prog, environ, start_response, rec):
+    """Interpret one response program.
+    prog keys: status, headers, delivery, chunks, exc, exc_class, nwrite"""
+    exc = prog.get("exc")
+
+    def boom():
+        rec.raised = exc
+        raise make_exc(prog.get("exc_class", "ValueError"))
+
+    if exc and exc[0] == "call":
+        boom()
+    headers = [tuple(h) for h in prog.get("headers", [])]
+    if exc and exc[0] == "no_start":
+        return BodyIter(prog, rec, list(prog["chunks"]), False)
+    write = start_response(prog["status"], headers)
+    rec.started = True
+    if prog.get("restart"):
+        # PEP 3333: start_response may be called again, with exc_info, as long
+        # as no output has been sent; the new status/headers replace the old
+        r2 = prog["restart"]
+        try:
+            raise AppError("superseded")
+        except AppError:
+            import sys
+
+            write = start_response(r2["status"], [tuple(h) for h in r2["headers"]], sys.exc_info())
+    if exc and exc[0] == "after_start":
+        boom()
+    chunks = list(prog["chunks"])
+    delivery = prog["delivery"]
+    if delivery in ("write", "write+iter"):
+        nw = len(chunks) if delivery == "write" else min(prog.get("nwrite", 1), len(chunks))
+        for k in range(nw):
+            if exc and exc[0] == "write" and exc[1] == k:
+                boom()
+            rec.produced += chunks[k]
+            write(chunks[k])
+        return BodyIter(prog, rec, chunks[nw:], False)
+    if delivery == "list":
+        return BodyList(prog, rec, chunks, True)
+    if delivery == "gen":
+        return BodyIter(prog, rec, chunks, False)
+    if delivery in ("fw", "fw-noseek"):
+        data = b"".join(chunks)
+        f = TrackedFile(data, rec) if delivery == "fw" else NoSeekFile(data, rec)
+        rec.produced += data
+        rec.is_file = True
+        return environ["wsgi.file_wrapper"](f, prog.get("block_size", 32768))
+    raise ValueError(delivery)
+
+
+def program_app(env, programs, recs):
+    """WSGI app: the request path /<i> selects programs[i]; recs collects one
+    Rec per invocation (in order)."""
+
+    def app(environ, start_response):
+        idx = int(environ["PATH_INFO"].strip("/") or 0)
+        rec = Rec()
+        rec.idx = idx
+        rec.environ_method = environ["REQUEST_METHOD"]
+        recs.append(rec)
+        try:
+            environ["wsgi.input"].read()
+        except Exception:
+            pass
+        return run_program(programs[idx], environ, start_response, rec)
+
+    return app
